@@ -159,3 +159,38 @@ Theorem C08_renaming_program_partial : forall w r z z' prog,
   | _, _ => False
   end.
 Proof. exact renaming_ast. Qed.
+
+(** The passes never look inside a stored code block (they only test which names are bound to
+    one), so the code-block restrictions above can be dropped: insertions may also sit inside
+    code-block arguments of macro applications, and a renamed name may occur inside them.  What
+    remains about code blocks concerns only blocks ALREADY bound in the start state (none after
+    [resolver_init]). *)
+From A816 Require Import Proofs.CodeValues Proofs.CodeValuesNI Proofs.CodeValuesRen.
+Theorem C08_passes_code_blind : forall w ns r1 r2, code_blind r1 r2 ->
+  match assemble_nodes w r1 ns, assemble_nodes w r2 ns with
+  | Ok o1, Ok o2 => o_blocks o1 = o_blocks o2 /\ o_labels o1 = o_labels o2 /\ code_blind (o_final o1) (o_final o2)
+  | Err j, Err k => j = k
+  | OutOfFuel, OutOfFuel => True
+  | _, _ => False
+  end.
+Proof. exact assemble_nodes_code_blind. Qed.
+Theorem C08_noninterference_program_full : forall w r z prog1 prog2,
+  glins w z prog1 prog2 -> prog_fresh z prog2 = true -> code_fresh z r ->
+  match assemble_ast w r prog1, assemble_ast w r prog2 with
+  | Ok o1, Ok o2 => o_blocks o1 = o_blocks o2 /\ without z (o_labels o1) = without z (o_labels o2)
+  | Err j, Err k => j = k
+  | OutOfFuel, OutOfFuel => True
+  | _, _ => False
+  end.
+Proof. exact noninterference_ast_gen. Qed.
+Theorem C08_renaming_program : forall w r z z' prog,
+  nodot z = true -> nodot z' = true ->
+  prog_okg (ren z z') (inD z') prog ->
+  state_untouched z z' r = true -> start_code_ok (ren z z') (inD z') r ->
+  match assemble_ast w r prog, assemble_ast w r (rename_prog (ren z z') prog) with
+  | Ok o1, Ok o2 => o_blocks o2 = o_blocks o1 /\ o_labels o2 = map_keys (ren z z') (o_labels o1)
+  | Err j, Err k => j = k
+  | OutOfFuel, OutOfFuel => True
+  | _, _ => False
+  end.
+Proof. exact renaming_ast_gen. Qed.
